@@ -1,6 +1,7 @@
 //! The command line tool: C15 (faithful output), C16 (options and formats), C17 (rejections).
 //! Game files are generated from an abstract named game, so "the game exactly as written in the
 //! file" is known to the generator and never re-derived from the program under test.
+use crate::cli_model::*;
 use crate::core::*;
 use crate::gen::*;
 use crate::solve_props::Params;
@@ -161,16 +162,159 @@ pub fn to_json_file(ng: &NG, names: &Names) -> String {
     }
 }
 
+// ---------------------------------------------------------------------------------------------
+// Gambit files
+
+/// an exact rational (payoffs of a generated file are written and reasoned about exactly)
+#[derive(Clone, Copy, Debug, PartialEq, Eq, PartialOrd, Ord)]
+pub struct Q {
+    pub n: i128,
+    pub d: i128,
+}
+
+fn gcd(a: i128, b: i128) -> i128 {
+    if b == 0 {
+        a.abs()
+    } else {
+        gcd(b, a % b)
+    }
+}
+
+impl Q {
+    pub fn new(n: i128, d: i128) -> Q {
+        let g = gcd(n, d).max(1);
+        let s = if d < 0 { -1 } else { 1 };
+        Q { n: s * n / g, d: s * d / g }
+    }
+    pub const ZERO: Q = Q { n: 0, d: 1 };
+    /// exact value of a double that is a small dyadic rational
+    pub fn dyadic(x: f64) -> Q {
+        let mut m = 0;
+        let mut y = x;
+        while y.fract() != 0.0 && m < 60 {
+            y *= 2.0;
+            m += 1;
+        }
+        Q::new(y as i128, 1i128 << m)
+    }
+    pub fn add(self, o: Q) -> Q {
+        Q::new(self.n * o.d + o.n * self.d, self.d * o.d)
+    }
+    pub fn sub(self, o: Q) -> Q {
+        self.add(Q::new(-o.n, o.d))
+    }
+    pub fn mul(self, o: Q) -> Q {
+        Q::new(self.n * o.n, self.d * o.d)
+    }
+    pub fn to_f64(self) -> f64 {
+        self.n as f64 / self.d as f64
+    }
+    pub fn gt(self, o: Q) -> bool {
+        self.n * o.d > o.n * self.d
+    }
+    fn pow2(self) -> Option<u32> {
+        if self.d > 0 && self.d & (self.d - 1) == 0 {
+            Some(self.d.trailing_zeros())
+        } else {
+            None
+        }
+    }
+    /// the exact decimal expansion of a dyadic rational: (digits of |n|·5^m, m)
+    fn decimal_digits(self) -> Option<(bool, String, u32)> {
+        let m = self.pow2()?;
+        if m > 24 {
+            return None;
+        }
+        let scaled = self.n.abs() * 5i128.pow(m);
+        Some((self.n < 0, scaled.to_string(), m))
+    }
+}
+
+/// how nearly-but-not-exactly constant-sum a generated file is
+#[derive(Clone, Copy, Debug, PartialEq, Default)]
+pub enum Near {
+    /// exactly constant sum
+    #[default]
+    Off,
+    /// player two's payoff of some terminals moved by dyadic amounts well inside the 0.1 % tolerance
+    Dyadic,
+    /// one terminal moved by 255/256 of the largest amount the tolerance admits
+    Inside,
+    /// one terminal moved by 257/256 of it: the file must be rejected
+    Outside,
+}
+
+/// features of the `.efg` format a generated file uses beyond the basic shape
+#[derive(Clone, Debug, Default)]
+pub struct EfgFeat {
+    /// outcomes referred to by number only (payoffs and/or name omitted where the grammar allows),
+    /// one outcome id on interior nodes and terminals, interior outcomes paying the players differently
+    pub reuse: bool,
+    /// payoffs written as decimals / with exponents as well as fractions
+    pub decimals: bool,
+    /// many interior outcomes (several along one path)
+    pub dense: bool,
+    pub near: Near,
+}
+
+impl EfgFeat {
+    pub fn from_case(v: &Value) -> EfgFeat {
+        let b = |k: &str| v.get(k).and_then(|x| x.as_bool()).unwrap_or(false);
+        EfgFeat {
+            reuse: b("reuse"),
+            decimals: b("decimals"),
+            dense: b("dense"),
+            near: match v.get("near").and_then(|x| x.as_str()).unwrap_or("") {
+                "dyadic" => Near::Dyadic,
+                "inside" => Near::Inside,
+                "outside" => Near::Outside,
+                _ => Near::Off,
+            },
+        }
+    }
+    pub fn to_json(&self) -> Value {
+        json!({"reuse": self.reuse, "decimals": self.decimals, "dense": self.dense,
+               "near": match self.near { Near::Off => "off", Near::Dyadic => "dyadic", Near::Inside => "inside", Near::Outside => "outside" }})
+    }
+    pub fn random(rng: &mut Rng) -> EfgFeat {
+        EfgFeat {
+            reuse: rng.chance(0.5),
+            decimals: rng.chance(0.4),
+            dense: rng.chance(0.3),
+            near: *rng.pick(&[Near::Off, Near::Off, Near::Off, Near::Dyadic, Near::Inside]),
+        }
+    }
+}
+
+/// one node line of the file: `pre` ends with the outcome number
+struct OutLine {
+    pre: String,
+    oc: u64,
+    name: Option<String>,
+    pays: Option<String>,
+    interior: bool,
+}
+
 /// write a gambit file: constant sum `k`, part of each path's payoff attached to interior nodes,
-/// outcomes shared between terminals with equal payoffs
+/// outcomes shared between nodes with equal payoffs.  The game written is, by construction, `ng`
+/// with player two paid `k - u1 + eps` at the terminals (`eps` all zero unless `feat.near`).
 pub struct EfgWriter<'a> {
     pub rng: &'a mut Rng,
     pub names: &'a Names,
     pub k: f64,
     pub next_outcome: u64,
-    pub shared: BTreeMap<(i64, i64), u64>,
+    pub shared: BTreeMap<(Q, Q), u64>,
     pub anon_chance: u64,
     pub interior: bool,
+    pub feat: EfgFeat,
+    /// every outcome defined so far with its payoffs
+    defined: Vec<(u64, (Q, Q))>,
+    lines: Vec<OutLine>,
+    /// player two's perturbation per terminal, in file order
+    pub eps: Vec<Q>,
+    /// the unit of perturbation (zero when the file is exactly constant sum)
+    unit: Q,
+    near_done: bool,
 }
 
 fn dyadic(x: f64) -> String {
@@ -184,24 +328,85 @@ fn dyadic(x: f64) -> String {
 }
 
 impl EfgWriter<'_> {
-    fn pays(&self, one: f64, carried: f64) -> String {
-        // the terminal's own payoffs complete what interior nodes carried: u1 = one, u2 = k - one
-        format!("{{ {}, {} }}", dyadic(one - carried), dyadic(self.k - one - carried))
+    /// one payoff as text
+    fn fmt_q(&mut self, q: Q) -> String {
+        let basic = |q: Q| -> String {
+            if 8 % q.d == 0 {
+                dyadic(q.to_f64())
+            } else {
+                format!("{}/{}", q.n, q.d)
+            }
+        };
+        if !self.feat.decimals {
+            return basic(q);
+        }
+        match (self.rng.below(5), q.decimal_digits()) {
+            (0, Some((neg, digits, m))) => {
+                // plain decimal, e.g. -0.125, 3.0, .5
+                let mut dg = digits;
+                while (dg.len() as u32) <= m {
+                    dg.insert(0, '0');
+                }
+                let (ip, fp) = dg.split_at(dg.len() - m as usize);
+                let ip = if ip == "0" && !fp.is_empty() && self.rng.chance(0.3) { "" } else { ip };
+                let fp = if fp.is_empty() && self.rng.chance(0.5) { "0" } else { fp };
+                let dot = if fp.is_empty() && self.rng.chance(0.5) { "" } else { "." };
+                format!("{}{}{}{}", if neg { "-" } else { "" }, ip, dot, fp)
+            }
+            (1, Some((neg, digits, m))) => format!("{}{}e-{}", if neg { "-" } else { "" }, digits, m),
+            (2, _) => format!("{}{}/{}", if q.n >= 0 && self.rng.chance(0.2) { "+" } else { "" }, q.n, q.d),
+            (3, _) => format!("{}/{}", q.n * 3, q.d * 3),
+            _ => basic(q),
+        }
     }
-    pub fn node(&mut self, ng: &NG, carried: f64, out: &mut String) {
+    fn fmt_pays(&mut self, a: Q, b: Q) -> String {
+        let (x, y) = (self.fmt_q(a), self.fmt_q(b));
+        let comma = if self.feat.decimals && self.rng.chance(0.3) { "" } else { "," };
+        format!("{{ {}{} {} }}", x, comma, y)
+    }
+    fn outcome_name(&self, id: u64, interior: bool) -> String {
+        if self.feat.reuse || !interior {
+            format!("\"out{}\"", id)
+        } else {
+            format!("\"mid{}\"", id)
+        }
+    }
+    pub fn node(&mut self, ng: &NG, carried: (Q, Q)) {
         match ng {
             NG::Term(p) => {
-                let key = (((p - carried) * 8.0).round() as i64, ((self.k - p - carried) * 8.0).round() as i64);
-                let (id, first) = match self.shared.get(&key) {
-                    Some(id) if self.rng.chance(0.7) => (*id, false),
+                let mut e = Q::ZERO;
+                if self.unit != Q::ZERO {
+                    match self.feat.near {
+                        Near::Dyadic => {
+                            if self.rng.chance(0.4) {
+                                e = self.unit.mul(*self.rng.pick(&[Q { n: 1, d: 4 }, Q { n: 1, d: 2 }, Q { n: 1, d: 1 }]));
+                            }
+                        }
+                        Near::Inside | Near::Outside => {
+                            if !self.near_done {
+                                e = self.unit;
+                                self.near_done = true;
+                            }
+                        }
+                        Near::Off => {}
+                    }
+                }
+                self.eps.push(e);
+                let one = Q::dyadic(*p).sub(carried.0);
+                let two = Q::dyadic(self.k).sub(Q::dyadic(*p)).add(e).sub(carried.1);
+                let key = (one, two);
+                let id = match self.shared.get(&key) {
+                    Some(id) if self.rng.chance(0.7) => *id,
                     _ => {
                         self.next_outcome += 1;
                         self.shared.insert(key, self.next_outcome);
-                        (self.next_outcome, true)
+                        self.defined.push((self.next_outcome, key));
+                        self.next_outcome
                     }
                 };
-                let _ = first;
-                out.push_str(&format!("t \"\" {} \"out{}\" {}\n", id, id, self.pays(*p, carried)));
+                let pays = self.fmt_pays(one, two);
+                let name = self.outcome_name(id, false);
+                self.lines.push(OutLine { pre: format!("t \"\" {}", id), oc: id, name: Some(name), pays: Some(pays), interior: false });
             }
             NG::Chance(i, outs) => {
                 let tot: u32 = outs.iter().map(|o| o.1).sum();
@@ -213,10 +418,10 @@ impl EfgWriter<'_> {
                     }
                 };
                 let acts: Vec<String> = outs.iter().map(|(n, w, _)| format!("{} {}/{}", jstr(n), w, tot)).collect();
-                let (oc, add) = self.interior_outcome(false);
-                out.push_str(&format!("c \"\" {} \"\" {{ {} }} {}\n", id, acts.join(" "), oc));
+                let (oc, add, pays) = self.interior_outcome();
+                self.lines.push(OutLine { pre: format!("c \"\" {} \"\" {{ {} }} {}", id, acts.join(" "), oc), oc, name: None, pays, interior: true });
                 for (_, _, c) in outs {
-                    self.node(c, carried + add, out);
+                    self.node(c, (carried.0.add(add.0), carried.1.add(add.1)));
                 }
             }
             NG::Player(one, i, acts) => {
@@ -226,33 +431,154 @@ impl EfgWriter<'_> {
                     None => String::new(),
                 };
                 let list: Vec<String> = acts.iter().map(|(n, _)| jstr(n)).collect();
-                let (oc, add) = self.interior_outcome(true);
-                out.push_str(&format!("p \"\" {} {}{} {{ {} }} {}\n", p + 1, i + 1, nm, list.join(" "), oc));
+                let (oc, add, pays) = self.interior_outcome();
+                let name = if oc != 0 { Some(self.outcome_name(oc, true)) } else { None };
+                self.lines.push(OutLine { pre: format!("p \"\" {} {}{} {{ {} }} {}", p + 1, i + 1, nm, list.join(" "), oc), oc, name, pays, interior: true });
                 for (_, c) in acts {
-                    self.node(c, carried + add, out);
+                    self.node(c, (carried.0.add(add.0), carried.1.add(add.1)));
                 }
             }
         }
     }
-    /// sometimes attach an outcome `{ d, d }` to an interior node (both players get `d`; the
-    /// terminals below compensate) — returns the text after the action list and the carried amount
-    fn interior_outcome(&mut self, named: bool) -> (String, f64) {
-        if self.interior && self.rng.chance(0.2) {
-            let d = (self.rng.range(0, 8) as f64 - 4.0) / 8.0;
+    /// sometimes attach an outcome to an interior node (the terminals below compensate): a new one
+    /// `{ d, d }` (both players get `d`), with `feat.reuse` also `{ d1, d2 }` or an outcome defined
+    /// elsewhere in the file — returns the outcome number, the amounts carried, the payoff text
+    fn interior_outcome(&mut self) -> (u64, (Q, Q), Option<String>) {
+        let prob = if self.feat.dense { 0.45 } else { 0.2 };
+        if self.interior && self.rng.chance(prob) {
+            if self.feat.reuse && !self.defined.is_empty() && self.rng.chance(0.5) {
+                let (id, pays) = *self.rng.pick(&self.defined);
+                let text = self.fmt_pays(pays.0, pays.1);
+                return (id, pays, Some(text));
+            }
+            let d = Q::new(self.rng.range(0, 8) as i128 - 4, 8);
+            let d2 = if self.feat.reuse && self.rng.chance(0.5) { Q::new(self.rng.range(0, 8) as i128 - 4, 8) } else { d };
             self.next_outcome += 1;
-            let name = if named { format!(" \"mid{}\"", self.next_outcome) } else { String::new() };
-            (format!("{}{} {{ {}, {} }}", self.next_outcome, name, dyadic(d), dyadic(d)), d)
+            self.defined.push((self.next_outcome, (d, d2)));
+            if self.feat.reuse {
+                self.shared.entry((d, d2)).or_insert(self.next_outcome);
+            }
+            let text = self.fmt_pays(d, d2);
+            (self.next_outcome, (d, d2), Some(text))
         } else {
-            ("0".to_string(), 0.0)
+            (0, (Q::ZERO, Q::ZERO), None)
+        }
+    }
+    /// refer to outcomes by number only where the grammar allows: an interior node may omit the
+    /// payoffs (and a player node the outcome name) of an outcome whose payoffs are written at
+    /// another node, anywhere in the file; a terminal always lists payoffs but may omit the name
+    fn strip(&mut self) {
+        let mut by_id: BTreeMap<u64, Vec<usize>> = BTreeMap::new();
+        for (i, l) in self.lines.iter().enumerate() {
+            if l.oc != 0 {
+                by_id.entry(l.oc).or_default().push(i);
+            }
+        }
+        for (_, occ) in by_id {
+            let interior: Vec<usize> = occ.iter().cloned().filter(|i| self.lines[*i].interior).collect();
+            let has_terminal = interior.len() < occ.len();
+            let keeper = if has_terminal || interior.is_empty() { usize::MAX } else { *self.rng.pick(&interior) };
+            for i in &interior {
+                if *i != keeper && occ.len() >= 2 && self.rng.chance(0.7) {
+                    self.lines[*i].pays = None;
+                }
+            }
+            for i in &occ {
+                if self.lines[*i].name.is_some() && self.rng.chance(0.4) {
+                    self.lines[*i].name = None;
+                }
+            }
+        }
+    }
+    fn render(&self, out: &mut String) {
+        for l in &self.lines {
+            out.push_str(&l.pre);
+            if l.oc != 0 {
+                if let Some(n) = &l.name {
+                    out.push(' ');
+                    out.push_str(n);
+                }
+                if let Some(p) = &l.pays {
+                    out.push(' ');
+                    out.push_str(p);
+                }
+            }
+            out.push('\n');
         }
     }
 }
 
-pub fn to_efg_file(rng: &mut Rng, ng: &NG, names: &Names, k: f64, interior: bool) -> String {
+/// a generated gambit file with what the generator knows about it
+pub struct EfgOut {
+    pub text: String,
+    /// player two's payoff at the terminals is `k - u1 + eps` (file order)
+    pub eps: Vec<f64>,
+    /// the offset a correct reader extracts (`min + (max - min) / 2` over the pair sums)
+    pub sum: f64,
+    /// `max - min` of the terminals' `eps`
+    pub spread: f64,
+}
+
+fn ng_payoffs(ng: &NG, out: &mut Vec<f64>) {
+    match ng {
+        NG::Term(p) => out.push(*p),
+        NG::Chance(_, o) => o.iter().for_each(|x| ng_payoffs(&x.2, out)),
+        NG::Player(_, _, a) => a.iter().for_each(|x| ng_payoffs(&x.1, out)),
+    }
+}
+
+pub fn to_efg_file(rng: &mut Rng, ng: &NG, names: &Names, k: f64, interior: bool, feat: &EfgFeat) -> EfgOut {
     let mut out = String::from("EFG 2 R \"generated\" { \"one\" \"two\" }\n\"a generated game\"\n\n");
-    let mut w = EfgWriter { rng, names, k, next_outcome: 0, shared: BTreeMap::new(), anon_chance: 0, interior };
-    w.node(ng, 0.0, &mut out);
-    out
+    // the largest perturbation of one pair sum the 0.1 % tolerance admits is range1 / 500
+    let mut pv = Vec::new();
+    ng_payoffs(ng, &mut pv);
+    let range1 = pv.iter().cloned().fold(f64::NEG_INFINITY, f64::max) - pv.iter().cloned().fold(f64::INFINITY, f64::min);
+    let unit = if range1 > 0.0 {
+        let lim = Q::dyadic(range1).mul(Q { n: 1, d: 500 });
+        match feat.near {
+            Near::Off => Q::ZERO,
+            Near::Dyadic => {
+                let mut e = Q { n: 1, d: 1 };
+                while e.gt(lim) {
+                    e = e.mul(Q { n: 1, d: 2 });
+                }
+                e
+            }
+            Near::Inside => lim.mul(Q { n: 255, d: 256 }),
+            Near::Outside => lim.mul(Q { n: 257, d: 256 }),
+        }
+    } else {
+        Q::ZERO
+    };
+    let mut w = EfgWriter {
+        rng, names, k, next_outcome: 0, shared: BTreeMap::new(), anon_chance: 0, interior, feat: feat.clone(),
+        defined: Vec::new(), lines: Vec::new(), eps: Vec::new(), unit, near_done: false,
+    };
+    w.node(ng, (Q::ZERO, Q::ZERO));
+    if w.feat.reuse {
+        w.strip();
+    }
+    w.render(&mut out);
+    let eps: Vec<f64> = w.eps.iter().map(|e| e.to_f64()).collect();
+    let (lo, hi) = if eps.is_empty() { (0.0, 0.0) } else { (eps.iter().cloned().fold(f64::INFINITY, f64::min), eps.iter().cloned().fold(f64::NEG_INFINITY, f64::max)) };
+    let (smin, smax) = ((k + lo) / 2.0, (k + hi) / 2.0);
+    EfgOut { text: out, eps, sum: smin + (smax - smin) / 2.0, spread: hi - lo }
+}
+
+/// the game of player two's own payoffs as written in the file: `k - u1 + eps`
+pub fn ng_player_two(ng: &NG, k: f64, eps: &[f64]) -> NG {
+    fn go(ng: &NG, k: f64, eps: &[f64], at: &mut usize) -> NG {
+        match ng {
+            NG::Term(p) => {
+                let e = eps.get(*at).cloned().unwrap_or(0.0);
+                *at += 1;
+                NG::Term(k - p + e)
+            }
+            NG::Chance(i, o) => NG::Chance(*i, o.iter().map(|(n, w, c)| (n.clone(), *w, go(c, k, eps, at))).collect()),
+            NG::Player(p, i, a) => NG::Player(*p, *i, a.iter().map(|(n, c)| (n.clone(), go(c, k, eps, at))).collect()),
+        }
+    }
+    go(ng, k, eps, &mut 0)
 }
 
 /// deepest game tree whose JSON encoding serde_json still parses (3 JSON levels per game level)
@@ -331,11 +657,19 @@ pub fn case_cli(ctx: &mut Ctx, case: &Value) {
     let format = case["format"].as_str().unwrap_or("json");
     let k = case["k"].as_f64().unwrap_or(0.0);
     let gambit = format == "gambit";
-    let content = if gambit {
-        to_efg_file(&mut nrng, &ng, &names, k, case["interior"].as_bool().unwrap_or(false))
-    } else {
-        to_json_file(&ng, &names)
+    let feat = EfgFeat::from_case(&case["efg"]);
+    let efg = if gambit { Some(to_efg_file(&mut nrng, &ng, &names, k, case["interior"].as_bool().unwrap_or(false) || feat.reuse || feat.dense, &feat)) } else { None };
+    let content = match &efg {
+        Some(e) => e.text.clone(),
+        None => to_json_file(&ng, &names),
     };
+    if gambit {
+        for (on, key) in [(feat.reuse, "efg_outcomes_by_reference"), (feat.decimals, "efg_decimal_payoffs"), (feat.dense, "efg_dense_interior_outcomes"), (feat.near != Near::Off, "efg_nearly_constant_sum")] {
+            if on {
+                ctx.stat(key);
+            }
+        }
+    }
     let method = case["method"].as_str().unwrap_or("full");
     let preset = case["discount"].as_str().unwrap_or("dcfr");
     let iters = case["t"].as_u64().unwrap_or(20);
@@ -396,9 +730,13 @@ pub fn case_cli(ctx: &mut Ctx, case: &Value) {
         Err(e) => return ctx.fail_prop(case, format!("output is not one JSON object: {} ({:?})", e, &text[..text.len().min(200)])),
     };
     // the numeric game the library call sees, and the game as written in the file (payoffs u1)
-    let offset = if gambit { k / 2.0 } else { 0.0 };
+    // (a nearly constant-sum file has pair sums k + eps; the offset is the middle of their range)
+    let offset = efg.as_ref().map(|e| e.sum).unwrap_or(0.0);
+    let spread = efg.as_ref().map(|e| e.spread).unwrap_or(0.0);
     let it = intern(&ng, &names, offset, gambit);
     let it_file = intern(&ng, &names, 0.0, gambit);
+    // player two's own payoffs as written in the file
+    let it_file2 = intern(&ng_player_two(&ng, k, efg.as_ref().map(|e| e.eps.as_slice()).unwrap_or(&[])), &names, 0.0, gambit);
     let named = match printed_named(&v, &it, &names, &it.tree) {
         Ok(n) => n,
         Err(e) => return ctx.fail_prop(case, format!("printed strategies: {}; {}", e, shown)),
@@ -420,9 +758,14 @@ pub fn case_cli(ctx: &mut Ctx, case: &Value) {
     };
     let tol = 1e-9 * sc;
     let u1 = ev_raw(&it_file.tree, &beh, &[None, None]);
-    let u2 = k - u1;
-    if !close_tol(pu1, u1, tol) || !close_tol(pu2, u2, tol) {
-        ctx.fail_prop(case, format!("printed utilities ({:e}, {:e}); evaluating the printed strategies on the file's own payoffs gives ({:e}, {:e}) (constant sum {}); {}", pu1, pu2, u1, u2, k, shown));
+    // each player's own payoffs; for a file that is constant-sum only within the 0.1 % tolerance the
+    // program reports 2 * offset - u1 for player two, off by at most half the spread of the pair sums
+    let u2 = ev_raw(&it_file2.tree, &beh, &[None, None]);
+    if !close_tol(pu1, u1, tol) || !((pu2 - u2).abs() <= spread / 2.0 + tol * 1f64.max(u2.abs())) {
+        ctx.fail_prop(case, format!("printed utilities ({:e}, {:e}); evaluating the printed strategies on the file's own payoffs gives ({:e}, {:e}) (constant sum {}, spread {:e}); {}", pu1, pu2, u1, u2, k, spread, shown));
+    }
+    if !close_tol(pu1 + pu2, 2.0 * offset, 2.0 * tol) {
+        ctx.fail_prop(case, format!("printed utilities ({:e}, {:e}) do not add up to the constant {:e} of the file; {}", pu1, pu2, 2.0 * offset, shown));
     }
     if preg != f64::max(pr1, pr2) {
         ctx.fail_prop(case, format!("printed regret {:e} is not the larger of {:e} and {:e}", preg, pr1, pr2));
@@ -454,6 +797,47 @@ pub fn case_cli(ctx: &mut Ctx, case: &Value) {
             if !close_tol(want, got, tol) {
                 ctx.fail_prop(case, format!("printed regret of player {} is {:e}; best unilateral gain on the file game is {:e}", p + 1, got, want));
             }
+        }
+    }
+    // the program against its model (lean/CfrVerif/Model/Cli.lean) on the AST the third-party
+    // parser returns for this very text
+    let ast = ast_of(&content);
+    let right_kind = matches!((&ast, gambit), (Ast::Gambit(..), true) | (Ast::Json(..), false));
+    if !right_kind {
+        ctx.fail_corr(case, format!("the harness could not obtain the AST of a generated {} file; {}", format, shown));
+    } else {
+        // the conversion on its own: the model's argument of from_root against the generator's game
+        if let Some(req) = ast.raw_request() {
+            let resp = ctx.model.ask(&req);
+            ctx.stat("cli_model_raw_requests");
+            let mut ok = false;
+            if let Some(body) = resp.strip_prefix("ok ") {
+                let mut tk = Toks::new(body);
+                let msum = tk.f();
+                let rest = tk.rest().join(" ");
+                match T::parse_line(&rest) {
+                    Some(mt) => match raw_equiv(&mt, &it.tree, 1e-12 * sc) {
+                        Ok(()) if close_tol(msum, offset, 1e-12 * sc) => ok = true,
+                        Ok(()) => ctx.fail_corr(case, format!("the model's conversion extracts the offset {:e}, the file was written with {:e}; {}", msum, offset, shown)),
+                        Err(e) => ctx.fail_corr(case, format!("the model's conversion of the AST is not the game the file was written from: {}; {}", e, shown)),
+                    },
+                    None => ctx.fail_corr(case, format!("unreadable cli-raw answer {:?}", &resp[..resp.len().min(200)])),
+                }
+            } else {
+                ctx.fail_corr(case, format!("the model's conversion rejects a generated valid file: {}; {}", &resp[..resp.len().min(200)], shown));
+            }
+            if ok {
+                ctx.stat("cli_model_raw_agree");
+            }
+        }
+        let opts = Opts { method: method.to_string(), discount: preset.to_string(), t: iters, r: maxreg, p: par, c: clip };
+        if opts.reproducible() {
+            let (mfmt, mkind) = route_fmt_kind(route, format);
+            let resp = ctx.model.ask(&ast.run_request(&mfmt, mkind, &opts));
+            ctx.stat("cli_model_run_requests");
+            compare_run(ctx, case, &ast, &resp, run.status, &text, &run.stderr, sc, &shown.to_string());
+        } else {
+            compare_eval(ctx, case, &ast, &v, sc, &shown.to_string());
         }
     }
     // C16: the options select the library behaviour
@@ -540,7 +924,8 @@ fn gen_cli_case(ctx: &mut Ctx, i: u64, compare_library: bool) -> Value {
     json!({
         "op": "cli", "tree": t.to_json(), "nseed": ctx.rng.next() >> 12,
         "format": if gambit { "gambit" } else { "json" },
-        "k": k, "interior": gambit && ctx.rng.chance(0.5),
+        "k": k, "interior": gambit && ctx.rng.chance(0.6),
+        "efg": if gambit && ctx.rng.chance(0.7) { EfgFeat::random(&mut ctx.rng).to_json() } else { EfgFeat::default().to_json() },
         "method": method,
         "discount": *ctx.rng.pick(&["vanilla", "lcfr", "cfr-plus", "dcfr", "dcfr-prune"]),
         "t": *ctx.rng.pick(&[1u64, 2, 5, 20, 60]),
@@ -565,7 +950,7 @@ pub fn c15(ctx: &mut Ctx) -> String {
         }
         case_cli(ctx, &case);
     }
-    "generated valid JSON-DSL and Gambit files (constant sums 0, 1, 4, -2.5, 10; payoffs attached to interior nodes; shared outcomes; unnamed infosets; rational chance probabilities; action lists in non-sorted order) x methods x presets x -t x -r x -p x -c x input routes x output destination; the printed strategies are re-evaluated on the game as written in the file by an independent evaluator, by the model's evaluator and (small games) by brute force over pure strategies".to_string()
+    "generated valid JSON-DSL and Gambit files (constant sums 0, 1, 4, -2.5, 10; payoffs attached to interior nodes; shared outcomes; unnamed infosets; rational chance probabilities; action lists in non-sorted order) x methods x presets x -t x -r x -p x -c x input routes x output destination; the printed strategies are re-evaluated on the game as written in the file by an independent evaluator, by the model's evaluator and (small games) by brute force over pure strategies; Gambit files also use outcomes referred to by number only, one outcome on interior nodes and terminals, interior outcomes paying the players differently, decimal / exponent payoffs, several interior outcomes on a path, pair sums varying inside the 0.1 % tolerance; every file's text is parsed by the real gambit-parser / serde_json into the AST the program sees and given to the model of the command-line layer (Model/Cli.lean): its conversion (cli-raw) against the generator's game, its whole run (-m full -p 1) against the printed object, otherwise its evaluation of the printed strategies (cli-eval) against the printed numbers".to_string()
 }
 
 pub fn c16(ctx: &mut Ctx) -> String {
@@ -613,7 +998,7 @@ pub fn c16(ctx: &mut Ctx) -> String {
     let case = json!({"op": "cli", "tree": t.to_json(), "nseed": 5, "format": "json", "k": 0.0, "method": "full", "discount": "dcfr",
         "t": 0, "r": 0.05, "p": 1, "c": 0.0, "route": "file-ext", "outfile": false, "compare_library": true});
     case_cli(ctx, &case);
-    "generated valid files x -m full x -d x -t (incl. 0 = unlimited with -r > 0) x -r x -p {1, 2} x -c x input routes {file by extension, stdin auto, stdin explicit, other extension auto / explicit} x {-o file, stdout}: printed strategies against Game::solve + truncate + get_info called in-process with the mapped arguments (bit-equal for -p 1); JSON / Gambit twins of one game".to_string()
+    "generated valid files x -m full x -d x -t (incl. 0 = unlimited with -r > 0) x -r x -p {1, 2} x -c x input routes {file by extension, stdin auto, stdin explicit, other extension auto / explicit} x {-o file, stdout}: printed strategies against Game::solve + truncate + get_info called in-process with the mapped arguments (bit-equal for -p 1); JSON / Gambit twins of one game; the same runs against the model of the command-line layer (Model/Cli.lean: format selection, conversion, option mapping, solve, clip step, output assembly) on the AST the real third-party parser returns for the file text".to_string()
 }
 
 fn twin_output(ctx: &mut Ctx, case: &Value) -> Option<[Named; 2]> {
@@ -621,7 +1006,7 @@ fn twin_output(ctx: &mut Ctx, case: &Value) -> Option<[Named; 2]> {
     let mut nrng = Rng::new(nseed);
     let (ng, names) = name_game(&mut nrng, &t);
     let gambit = case["format"].as_str() == Some("gambit");
-    let content = if gambit { to_efg_file(&mut nrng, &ng, &names, 0.0, false) } else { to_json_file(&ng, &names) };
+    let content = if gambit { to_efg_file(&mut nrng, &ng, &names, 0.0, false, &EfgFeat::default()).text } else { to_json_file(&ng, &names) };
     let f = scratch_file(ctx, if gambit { "twin.efg" } else { "twin.json" }, &content);
     let args: Vec<String> = vec![
         "-m".into(), "full".into(), "-d".into(), case["discount"].as_str().unwrap_or("dcfr").into(),
@@ -639,6 +1024,81 @@ fn twin_output(ctx: &mut Ctx, case: &Value) -> Option<[Named; 2]> {
 // ---------------------------------------------------------------------------------------------
 // C17
 
+/// One run of the binary on an input that is (mostly) not a valid game, under one input route:
+/// the property's oracle (non-zero exit, empty stdout, diagnostic naming the expected category;
+/// `"accept"` = the input is a valid game and must be solved) and the model's prediction for the
+/// AST the third-party parsers return on these very bytes.
+pub fn case_reject(ctx: &mut Ctx, case: &Value) {
+    ctx.record_current(case);
+    let bad = case["input"].as_str().unwrap_or("");
+    let format = case["format"].as_str().unwrap_or("json");
+    let route = case["route"].as_str().unwrap_or("explicit");
+    let what = case["corruption"].as_str().unwrap_or("");
+    let expect = case["expected_category"].as_str().unwrap_or("");
+    // the format named on the command line when the route names one
+    let flag = case["explicit_format"].as_str().unwrap_or(format);
+    let opts = Opts { method: "full".into(), discount: "dcfr".into(), t: 5, r: 0.0, p: 1, c: 0.0 };
+    let mut args: Vec<String> = vec!["-m".into(), "full".into(), "-t".into(), "5".into(), "-p".into(), "1".into()];
+    let mut stdin = None;
+    let (mfmt, mkind): (String, &str) = match route {
+        "explicit" => {
+            args.extend(["--input-format".to_string(), flag.to_string()]);
+            stdin = Some(bad);
+            (flag.to_string(), "stdin")
+        }
+        "auto" => {
+            stdin = Some(bad);
+            ("auto".to_string(), "stdin")
+        }
+        _ => {
+            // a file whose extension selects the reader
+            let ext = if format == "gambit" { "efg" } else { "json" };
+            let f = scratch_file(ctx, &format!("bad.{}", ext), bad);
+            args.extend(["-i".to_string(), f]);
+            ("auto".to_string(), ext)
+        }
+    };
+    let run = run_cfr(ctx, &args, stdin);
+    ctx.stat(&format!("corruption_{}_{}", format, what));
+    ctx.stat(&format!("reject_route_{}", route));
+    let shown = json!({"corruption": what, "format": format, "route": route, "args": args}).to_string();
+    if expect == "accept" {
+        let solved = run.status == Some(0) && serde_json::from_str::<Value>(&run.stdout).map(|v| v.is_object()).unwrap_or(false);
+        if !solved {
+            ctx.fail_prop(case, format!("{} ({}, {}): a valid game was not solved: exit status {:?}, stderr {:?}", what, format, route, run.status, &run.stderr[..run.stderr.len().min(300)]));
+        }
+    } else {
+        let solved = run.status == Some(0);
+        if solved || !run.stdout.trim().is_empty() {
+            ctx.fail_prop(case, format!("{} ({}, {} format): exit status {:?}, stdout {:?}", what, format, route, run.status, &run.stdout[..run.stdout.len().min(200)]));
+        } else {
+            let parse_level = expect.split('|').any(|x| x == "json-error" || x == "gambit-error");
+            let auto_want = format!("{}|auto-error", expect);
+            let want: &str = if route == "auto" && parse_level { &auto_want } else { expect };
+            // with auto-detection a file that one parser accepts surfaces that parser's later diagnostic
+            let names_one = |w: &str| w.split('|').any(|x| run.stderr.contains(x));
+            if !want.is_empty() && !names_one(want) && !(route == "auto" && names_one(expect)) {
+                ctx.fail_prop(case, format!("{} ({}, {}): diagnostic does not name {:?}: {:?}", what, format, route, want, &run.stderr[..run.stderr.len().min(400)]));
+            }
+        }
+    }
+    // the model on the AST of these bytes
+    let ast = ast_of(bad);
+    ctx.stat(match &ast {
+        Ast::Json(..) => "cli_model_reject_ast_json",
+        Ast::Gambit(..) => "cli_model_reject_ast_gambit",
+        Ast::Unparsed => "cli_model_reject_unparsed",
+    });
+    let resp = ctx.model.ask(&ast.run_request(&mfmt, mkind, &opts));
+    ctx.stat("cli_model_run_requests");
+    compare_run(ctx, case, &ast, &resp, run.status, &run.stdout, &run.stderr, 1.0, &shown);
+    let mut h = mix64(what.len() as u64) ^ mix64(route.len() as u64 + 77);
+    for b in bad.bytes().take(4000) {
+        h = (h ^ b as u64).wrapping_mul(0x100000001b3);
+    }
+    ctx.count(h, true);
+}
+
 pub fn c17(ctx: &mut Ctx) -> String {
     let n = if ctx.thorough { 3000 } else { 240 };
     for i in 0..n {
@@ -650,9 +1110,11 @@ pub fn c17(ctx: &mut Ctx) -> String {
         let (ng, names) = name_game(&mut nrng, &t);
         let gambit = i % 2 == 1;
         let k = if gambit { *ctx.rng.pick(&[0.0, 2.0]) } else { 0.0 };
-        let good = if gambit { to_efg_file(&mut nrng, &ng, &names, k, false) } else { to_json_file(&ng, &names) };
-        // (corrupted text, expected diagnostic category or "" when only rejection is required)
-        let kind = ctx.rng.below(if gambit { 12 } else { 10 });
+        let good = if gambit { to_efg_file(&mut nrng, &ng, &names, k, false, &EfgFeat::default()).text } else { to_json_file(&ng, &names) };
+        // (corrupted text, expected diagnostic category, "" when only rejection is required,
+        //  "accept" when the text is a valid game)
+        let kind = ctx.rng.below(if gambit { 18 } else { 13 });
+        let mut other_format = false;
         let (bad, what, expect): (String, &str, &str) = if !gambit {
             match kind {
                 0 => (good[..good.len() * 2 / 3].to_string(), "truncated", "json-error"),
@@ -664,7 +1126,16 @@ pub fn c17(ctx: &mut Ctx) -> String {
                 6 => (good.replacen("\"actions\": {", "\"moves\": {", 1), "renamed-field-actions", "json-error"),
                 7 => ("[1, 2, 3]".to_string(), "not-an-object", "json-error"),
                 8 => (good.replacen("\"infoset\": \"", "\"infoset\": 5, \"x\": \"", 1), "wrong-type-infoset", "json-error"),
-                _ => (drop_first_state(&good), "dropped-field-state", "json-error"),
+                9 => (drop_first_state(&good), "dropped-field-state", "json-error"),
+                10 | 11 => {
+                    // a complete valid document followed by bytes that are not white space
+                    let tail = *ctx.rng.pick(&["}", " ]", ",", "\n{\"terminal\": 0.0}", " x", "\n0", " \"", "\t}}", " {\"terminal\": 0.0", "null"]);
+                    (format!("{}{}", good, tail), "trailing-bytes-after-the-document", "json-error")
+                }
+                _ => {
+                    other_format = true;
+                    (good.clone(), "valid-json-read-as-gambit", "gambit-error")
+                }
             }
         } else {
             match kind {
@@ -687,41 +1158,45 @@ pub fn c17(ctx: &mut Ctx) -> String {
                 8 => (good.replacen(" { ", " { \"dup\" \"dup\" ", 2), "garbled-action-list", ""),
                 9 => (huge_payoffs(&good), "payoffs-beyond-double", "non-finite|gambit-error"),
                 10 => (good.replace("t \"\"", "x \"\""), "unknown-node-kind", "gambit-error"),
-                _ => (String::new(), "empty-input", "gambit-error"),
+                11 => (String::new(), "empty-input", "gambit-error"),
+                12 => {
+                    let tail = *ctx.rng.pick(&["t", " }", " 0", "t \"\" 1 { 0, 0 }\n", "x", "{}"]);
+                    (format!("{}{}", good, tail), "trailing-bytes-after-the-document", "gambit-error")
+                }
+                13 | 14 => {
+                    // one pair sum moved just beyond / just within the 0.1 % tolerance, in files using
+                    // the whole grammar
+                    let mut feat = EfgFeat::random(&mut ctx.rng);
+                    feat.near = if kind == 13 { Near::Outside } else { Near::Inside };
+                    let f = to_efg_file(&mut nrng, &ng, &names, k, true, &feat);
+                    if f.spread == 0.0 {
+                        (good.clone(), "not-applicable", "")
+                    } else if kind == 13 {
+                        (f.text, "pair-sum-just-beyond-the-tolerance", "constant-sum")
+                    } else {
+                        (f.text, "pair-sum-just-within-the-tolerance", "accept")
+                    }
+                }
+                15 => (cross_player_name(&good), "one-name-for-infosets-of-both-players", "accept"),
+                16 => (outcome_arity(&good), "three-payoffs-behind-a-forward-reference", ""),
+                _ => {
+                    other_format = true;
+                    (good.clone(), "valid-gambit-read-as-json", "json-error")
+                }
             }
         };
-        if bad == good {
+        if (bad == good && !other_format) || what == "not-applicable" {
             ctx.stat("corruption_not_applicable");
             continue;
         }
         let format = if gambit { "gambit" } else { "json" };
-        for route in ["explicit", "auto"] {
-            let mut args: Vec<String> = vec!["-m".into(), "full".into(), "-t".into(), "5".into(), "-p".into(), "1".into()];
-            if route == "explicit" {
-                args.extend(["--input-format".to_string(), format.to_string()]);
+        let routes: &[&str] = if other_format { &["explicit"] } else { &["explicit", "auto", "file-ext"] };
+        for route in routes {
+            let mut case = json!({"op": "cli-reject", "format": format, "corruption": what, "route": route, "expected_category": expect, "input": bad});
+            if other_format {
+                case["explicit_format"] = json!(if gambit { "json" } else { "gambit" });
             }
-            let case = json!({"op": "cli-reject", "format": format, "corruption": what, "route": route, "expected_category": expect, "input": bad});
-            ctx.record_current(&case);
-            let run = run_cfr(ctx, &args, Some(&bad));
-            ctx.stat(&format!("corruption_{}_{}", format, what));
-            let solved = run.status == Some(0);
-            if solved || !run.stdout.trim().is_empty() {
-                ctx.fail_prop(&case, format!("{} ({}, {} format): exit status {:?}, stdout {:?}", what, format, route, run.status, &run.stdout[..run.stdout.len().min(200)]));
-            } else {
-                let parse_level = expect.split('|').any(|x| x == "json-error" || x == "gambit-error");
-                let auto_want = format!("{}|auto-error", expect);
-                let want: &str = if route == "auto" && parse_level { &auto_want } else { expect };
-                // with auto-detection a file that one parser accepts surfaces that parser's later diagnostic
-                let names_one = |w: &str| w.split('|').any(|x| run.stderr.contains(x));
-                if !want.is_empty() && !names_one(want) && !(route == "auto" && names_one(expect)) {
-                    ctx.fail_prop(&case, format!("{} ({}, {}): diagnostic does not name {:?}: {:?}", what, format, route, want, &run.stderr[..run.stderr.len().min(400)]));
-                }
-            }
-            let mut h = mix64(i) ^ mix64(kind);
-            for b in bad.bytes().take(4000) {
-                h = (h ^ b as u64).wrapping_mul(0x100000001b3);
-            }
-            ctx.count(h ^ (route.len() as u64), true);
+            case_reject(ctx, &case);
         }
         // contract violations of C11 surface as the game-error category
         if i % 3 == 0 {
@@ -731,7 +1206,7 @@ pub fn c17(ctx: &mut Ctx) -> String {
                 if names_ok(&ng2) {
                     let txt = to_json_file(&ng2, &names2);
                     let case = json!({"op": "cli-reject", "format": "json", "corruption": format!("contract-{}", planted), "input": txt});
-                    let run = run_cfr(ctx, &["--input-format".to_string(), "json".to_string(), "-t".to_string(), "3".to_string()], Some(&txt));
+                    let run = run_cfr(ctx, &["--input-format".to_string(), "json".to_string(), "-t".to_string(), "3".to_string(), "-m".to_string(), "full".to_string(), "-p".to_string(), "1".to_string()], Some(&txt));
                     ctx.stat(&format!("contract_violation_{}", planted));
                     // the file encoding merges duplicate action / outcome names (maps), which can repair a violation
                     let it = intern(&ng2, &names2, 0.0, false);
@@ -741,12 +1216,61 @@ pub fn c17(ctx: &mut Ctx) -> String {
                     } else if still && !run.stderr.contains("game-error") && !run.stderr.contains("json-error") {
                         ctx.fail_prop(&case, format!("contract violation {}: diagnostic names no documented category: {:?}", planted, &run.stderr[..run.stderr.len().min(300)]));
                     }
+                    // the model names the library error the program reports
+                    let ast = ast_of(&txt);
+                    let opts = Opts { method: "full".into(), discount: "dcfr".into(), t: 3, r: 0.0, p: 1, c: 0.0 };
+                    let resp = ctx.model.ask(&ast.run_request("json", "stdin", &opts));
+                    ctx.stat("cli_model_run_requests");
+                    compare_run(ctx, &case, &ast, &resp, run.status, &run.stdout, &run.stderr, 1.0, &format!("contract-{}", planted));
                     ctx.count(t2.hash(), true);
                 }
             }
         }
     }
-    "systematic corruptions of generated valid files under explicit and auto-detected formats: JSON {truncation, renamed / dropped fields, wrong types, zero and negative probabilities, non-object}, Gambit {truncation, three players, payoffs perturbed beyond the constant-sum tolerance, bad header, player number 3, probabilities not summing to one, two infosets with one name, number used as a name, garbled lists, payoffs beyond double range, unknown node kind, empty input}, library contract violations planted in JSON files; required: non-zero exit, empty stdout, diagnostic naming the documented category".to_string()
+    "systematic corruptions of generated valid files under explicit (stdin), auto-detected (stdin) and extension-selected (file) formats: JSON {truncation, renamed / dropped fields, wrong types, zero and negative probabilities, non-object, trailing bytes after a complete document, read as gambit}, Gambit {truncation, three players, payoffs perturbed beyond and just beyond / within the constant-sum tolerance, bad header, player number 3, probabilities not summing to one, two infosets with one name, number used as a name, one name across players (valid), garbled lists, payoffs beyond double range, three payoffs behind a forward reference, unknown node kind, empty input, trailing bytes, read as json}, library contract violations planted in JSON files; required: non-zero exit, empty stdout, diagnostic naming the documented category; every run is also compared with the model's (Model/Cli.lean) outcome for the AST the third-party parsers return on the same bytes".to_string()
+}
+
+/// give an infoset of player two the name of an infoset of player one (allowed: names are per player)
+fn cross_player_name(s: &str) -> String {
+    let find = |tag: &str| -> Option<String> {
+        let i = s.find(tag)?;
+        let rest = &s[i + 1..];
+        let j = rest.find('"')?;
+        Some(rest[..j].to_string())
+    };
+    match (find("\"I1-"), find("\"I2-")) {
+        (Some(a), Some(b)) => s.replace(&format!("\"{}\"", b), &format!("\"{}\"", a)),
+        _ => s.to_string(),
+    }
+}
+
+/// the root refers to a new outcome by number only; the last terminal defines it with three payoffs:
+/// gambit-parser's validate does not check the arity behind a forward reference
+fn outcome_arity(s: &str) -> String {
+    let lines: Vec<&str> = s.lines().collect();
+    let root = match lines.iter().position(|l| l.starts_with("p ") || l.starts_with("c ") || l.starts_with("t ")) {
+        Some(r) => r,
+        None => return s.to_string(),
+    };
+    let last = match lines.iter().rposition(|l| l.starts_with("t ")) {
+        Some(r) => r,
+        None => return s.to_string(),
+    };
+    if lines[root].starts_with("t ") || !lines[root].ends_with(" 0") || last <= root {
+        return s.to_string();
+    }
+    let mut out = String::new();
+    for (i, l) in lines.iter().enumerate() {
+        if i == root {
+            out.push_str(&format!("{}9999", &l[..l.len() - 1]));
+        } else if i == last {
+            out.push_str("t \"\" 9999 { 1, 2, 3 }");
+        } else {
+            out.push_str(l);
+        }
+        out.push('\n');
+    }
+    out
 }
 
 fn names_ok(ng: &NG) -> bool {
@@ -777,7 +1301,11 @@ fn drop_first_state(s: &str) -> String {
 }
 
 fn perturb_payoff(s: &str) -> String {
-    // change player two's payoff of the first terminal by one unit
+    // change player two's payoff of the first terminal by one unit (a game with a single terminal
+    // is constant sum whatever it pays)
+    if s.lines().filter(|l| l.starts_with("t ")).count() < 2 {
+        return s.to_string();
+    }
     match s.find("t \"\" ") {
         None => s.to_string(),
         Some(i) => {
